@@ -326,7 +326,7 @@ fn migrate_msg(w: &[u32; WORLD_WORDS], cfg: &wire::Cfg, allow_invalid: bool) -> 
                         (Some(spelled), Some(other))
                     }
                     (k, _) => match k % 6 {
-                    0 => (Some("0.03".into()), Some(POOL[5].to_string())),
+                    0 => (Some(["0.03", ".03", "+0.03", "00.03"][pick(w[26].rotate_left(13), 4)].into()), Some(POOL[5].to_string())),
                     1 => (Some(String::new()), Some(String::new())),
                     2 => (Some("0.0125".into()), Some(POOL[6].to_string())),
                     3 if allow_invalid => (Some("0.03".into()), None),
